@@ -418,6 +418,15 @@ package template
 //@   ensures spec: r == t.nameSpace.set[name]
 //@   ensures unlocked: !held(t.nameSpace.mu)
 
+//@ func (t *Template) Templates() (r []*Template)
+//@   serves C08 C07
+//@   requires !isnil(t) && !isnil(t.nameSpace) && !held(t.nameSpace.mu)
+//@   option locks true
+//@   ensures unlocked: !held(t.nameSpace.mu)
+//@   ensures readonly: nochange()
+//@   loop 1
+//@     invariant nochange()
+
 //@ func escapeTemplate(tmpl *Template, node parse.Node, name string) (err error)
 //@   serves C05 C06 C08
 //@   requires !isnil(tmpl) && !isnil(tmpl.nameSpace) && !isnil(tmpl.nameSpace.set)
